@@ -14,19 +14,19 @@ PROP = 'cssutils/css/property.py'
 
 
 def run(chk):
-    r13a(chk)
-    r13b(chk)
-    r13c(chk)
-    r13d(chk)
-    r13e(chk)
-    r13k(chk)
+    chk.attempt(r13a, chk)
+    chk.attempt(r13b, chk)
+    chk.attempt(r13c, chk)
+    chk.attempt(r13d, chk)
+    chk.attempt(r13e, chk)
+    chk.attempt(r13k, chk)
     from .c10 import r10e
 
-    r10e(chk, 'R13.g')
-    r13h(chk)
-    r13j(chk)
+    chk.attempt(r10e, chk, 'R13.g')
+    chk.attempt(r13h, chk)
+    chk.attempt(r13j, chk)
     if chk.tier == 'thorough':
-        profile_eda(chk, 'R13.f')
+        chk.attempt(profile_eda, chk, 'R13.f')
 
 
 VALIDATORS = [
